@@ -1,6 +1,7 @@
 package main
 
 import (
+	"net/http/httptest"
 	"time"
 	"runtime"
 	"bytes"
@@ -24,7 +25,7 @@ func init() {
 			"failed attempts may leave readers of their body behind (slow reader, gated io.Copy into a slow sink released during the next attempt, byte-wise spinning reader); a front middleware writes non-canonical and case-colliding header names into the map; verbose mode with a formatting Logger; credential headers; " +
 			"on every attempt the handler-side observation (method, URL, header set, ContentLength, TransferEncoding, body bytes) is compared with the client's own copy / the pristine values of attempt 1; non-trivial = body above the memory threshold or >= 2 attempts; distinct by (size, framing, m, attempt script)",
 		Assumptions: []string{"requests are sent by net/http's client over a real socket", "byte equality by SHA-256 + length + first differing offset"},
-		Parts:       []Part{{Name: "replay", Shards: 12, Fn: c06Replay}},
+		Parts:       []Part{{Name: "replay", Shards: 12, Fn: c06Replay}, {Name: "inprocess", Shards: 2, Fn: c06InProcess}},
 	})
 }
 
@@ -452,4 +453,71 @@ func c06Replay(c *Ctx) {
 	})
 	c.Require("cases_nontrivial", 2)
 	c.Require("cases_spilled_to_disk", 1)
+}
+
+// c06InProcess: the buffer called directly (behind another middleware, or under HTTP/2) with a body of unknown length that
+// is not "chunked" (ContentLength -1, no Transfer-Encoding), or with a length some earlier step left at -1: the handler
+// receives the bytes with the true length declared, on every attempt.
+func c06InProcess(c *Ctx) {
+	c.Cases("inprocess", c.N(300, 6000), func(i int, r *rand.Rand) {
+		size := pick(r, []int{0, 1, 100, 4096, 70000, 1 << 20, 1<<20 + 1})
+		if r.IntN(2) == 0 {
+			size = r.IntN(100000)
+		}
+		body := detBody(size, uint64(i)+c.Seed)
+		nAttempts := 1 + r.IntN(3)
+		var seenLen []int64
+		var seenBody [][]byte
+		var seenTE [][]string
+		h := http.HandlerFunc(func(w http.ResponseWriter, req *http.Request) {
+			b, _ := io.ReadAll(req.Body)
+			seenLen = append(seenLen, req.ContentLength)
+			seenBody = append(seenBody, b)
+			seenTE = append(seenTE, append([]string(nil), req.TransferEncoding...))
+			if len(seenLen) < nAttempts {
+				w.WriteHeader(503)
+				return
+			}
+			w.WriteHeader(200)
+		})
+		opts := []buffer.Option{buffer.Retry(`ResponseCode() == 503 && Attempts() <= 5`)}
+		if m := pick(r, []int64{0, 1, 512}); m > 0 {
+			opts = append(opts, buffer.MemRequestBodyBytes(m))
+		}
+		buf, err := buffer.New(h, opts...)
+		if err != nil {
+			c.Violation("constructor", err.Error(), nil)
+			return
+		}
+		req := httptest.NewRequest(pick(r, []string{"POST", "PUT"}), "http://front.test/upload", nil)
+		req.Body = io.NopCloser(struct{ io.Reader }{bytes.NewReader(body)})
+		req.ContentLength = -1
+		req.TransferEncoding = nil
+		if r.IntN(3) == 0 {
+			req.ProtoMajor, req.ProtoMinor, req.Proto = 2, 0, "HTTP/2.0"
+		}
+		rec := httptest.NewRecorder()
+		buf.ServeHTTP(rec, req)
+		c.Eval()
+		desc := map[string]any{"size": size, "attempts": nAttempts, "proto": req.Proto}
+		if rec.Code != 200 || len(seenLen) != nAttempts {
+			c.Violation("exchange/failed", sfmt("in-process request with a body of unknown length (%d bytes): status %d, handler invoked %d times (expected %d)", size, rec.Code, len(seenLen), nAttempts), desc)
+			return
+		}
+		for k := range seenLen {
+			if seenLen[k] != int64(size) || len(seenTE[k]) != 0 {
+				c.Violation("length/content-length", sfmt("attempt %d of %d: handler saw ContentLength %d and TransferEncoding %v, the body has %d bytes", k+1, nAttempts, seenLen[k], seenTE[k], size), desc)
+				return
+			}
+			if !bytes.Equal(seenBody[k], body) {
+				key := "body/first-attempt"
+				if k > 0 {
+					key = "body/replay"
+				}
+				c.Violation(key, sfmt("attempt %d of %d: handler read %d bytes, the request body has %d; first difference at offset %d", k+1, nAttempts, len(seenBody[k]), size, firstDiff(seenBody[k], body)), desc)
+				return
+			}
+		}
+		c.Nontrivial(sfmt("inproc/%d/%d/%d", size, nAttempts, i))
+	})
 }
